@@ -422,7 +422,7 @@ def add_same_name_shapes(root: File, rng: random.Random, ext_ok: bool = True) ->
     both.add(Field("left_modes", Arr(Ref(le), cap, ext=ext), 2))
     both.add(Field("left_history", Arr(Ref(ls), cap2, ext=ext), 3))
     both.add(Field("right_history", Arr(Ref(rs), cap2, ext=ext), 4))
-    al = root.add(Alias("Delta" + tag, Base("int", rng.choice([3, 7, 12, 17, 29, 33, 63]))))
+    al = root.add(Alias("Delta" + tag, Base("int", rng.choice([3, 7, 12, 17, 24, 29, 33, 40, 48, 56, 63]))))
     both.add(Field("deltas", Arr(Ref(al), rng.choice([1, 2, 4])), 5))
     both.add(Field("delta", Ref(al), 6))
     root.add(both)
